@@ -921,6 +921,80 @@ def edge_facts(body):
             for edge, fact in out:
                 if must_pass_edge(body, dbb, edge):
                     derived.append(((s, tgt), fact))
+    # a switch on the bool carried out of an inlined helper as `Ok(b)` / `Some(b)` (`if self.output_full()? { .. }` with
+    # `fn output_full(&self) -> Result<bool> { let o = self.dst.write_buf()?; Ok(o.is_empty()) }`): the success side of the `?`
+    # was reached through the one alternative that builds an Ok - its payload is the tested value
+    for s in sorted(body.reachable(0)):
+        t = body.term(s)
+        if t["k"] != "switch" or t.get("dty") != "bool":
+            continue
+        e = peel(switch_discr_expr(body, s), through_try=False)
+        neg = False
+        while e is not None and e.k == "un" and e.op == "Not":
+            neg = not neg
+            e = peel(e.a, through_try=False)
+        r = _success_payload(body, e, s)
+        if r is None:
+            continue
+        pa, dbb = r
+        pa = peel(pa, through_try=False)
+        while pa is not None and pa.k == "un" and pa.op == "Not":
+            neg = not neg
+            pa = peel(pa.a, through_try=False)
+        bt = bool_edge_targets(body, s)
+        if pa is None or not bt or bt[0] == bt[1]:
+            continue
+        tr, fa = (bt[1], bt[0]) if neg else bt
+        for want, tgt in ((True, tr), (False, fa)):
+            if pa.k == "bin" and pa.op in _REL_NEG:
+                derived.append(((s, tgt), (pa.op if want else _REL_NEG[pa.op], pa.a, pa.b)))
+            elif pa.k == "call":
+                derived.append(((s, tgt), ("Bool", pa, want)))
+            for edge, fact in out:
+                if edge[0] != s and must_pass_edge(body, dbb, edge):
+                    derived.append(((s, tgt), fact))
+    # a switch on the discriminant of a Result / Option chosen between alternatives (an inlined helper's `return Err(minimum)` /
+    # `Ok(n)`, a hand-built `let r = if .. { Some(x) } else { None }`): the `Err` edge was reached through the alternatives that
+    # build an Err - whatever held where every one of them was assigned holds on that edge
+    _VIDX = {"Ok": 0, "Err": 1, "None": 0, "Some": 1, "Continue": 0, "Break": 1}
+    for s in sorted(body.reachable(0)):
+        t = body.term(s)
+        if t["k"] != "switch" or t.get("dty") == "bool":
+            continue
+        e = peel(switch_discr_expr(body, s), through_try=False)
+        if e is None or e.k != "discr":
+            continue
+        x = peel(e.a, through_try=False)
+        if x is None or x.k != "multi" or not x.alts or not (2 <= len(x.alts) <= 6):
+            continue
+        if not (x.ty or "").startswith(("std::result::Result<", "std::option::Option<", "std::ops::ControlFlow<")):
+            continue
+        ds = body.defs().get(x.local, [])
+        if len(ds) != len(x.alts) or body.partial.get(x.local):
+            continue
+        alts = []
+        for (dbb, si, kind, payload), alt in zip(ds, x.alts):
+            pa = peel(alt, through_try=False)
+            if pa is not None and pa.k == "call" and (pa.q or "").endswith("from_residual") and (dbb == s or s in body.reachable(dbb)):
+                alts.append((dbb, 0 if (x.ty or "").startswith("std::option::Option<") else 1))
+                continue
+            if pa is None or pa.k != "agg" or pa.variant not in _VIDX or not (dbb == s or s in body.reachable(dbb)):
+                alts = None
+                break
+            alts.append((dbb, _VIDX[pa.variant]))
+        if not alts:
+            continue
+        edges = [(v, tgt) for v, tgt in t["targets"] if [x_ for x_, tg in t["targets"] if tg == tgt] == [v] and tgt != t["else"]]
+        vals = [v for v, _ in t["targets"]]
+        if t["else"] not in [tg for _, tg in t["targets"]] and len(vals) == 1:
+            edges.append((1 - vals[0], t["else"]))
+        for v, tgt in edges:
+            live = [dbb for dbb, vi in alts if vi == v]
+            if not live:
+                continue
+            for edge, fact in out:
+                if edge[0] != s and all(must_pass_edge(body, dbb, edge) for dbb in live):
+                    derived.append(((s, tgt), fact))
     if derived:
         out = out + derived
         body._edge_facts = out
@@ -928,6 +1002,34 @@ def edge_facts(body):
             if getattr(body, c, None) is not None:
                 setattr(body, c, {})
     return out
+
+
+def _success_payload(body, e, s):
+    """e = `(X as Ok|Some|Continue).0`, X (through `Try::branch`) a local chosen between built alternatives of which exactly one
+    is a success value `Ok(p)` / `Some(p)` and the others are failures (`Err(..)`, `None`, `from_residual(..)`): (p, block of that
+    assignment); None otherwise"""
+    if e is None or e.k != "field" or e.idx != 0 or e.a is None or e.a.k != "downcast" or e.a.variant not in ("Ok", "Some", "Continue"):
+        return None
+    x = peel(e.a.a, through_try=False)
+    if x is not None and x.k == "call" and (x.q or "").endswith("Try::branch") and x.args:
+        x = peel(x.args[0], through_try=False)
+    if x is None or x.k != "multi" or not x.alts or not (2 <= len(x.alts) <= 6):
+        return None
+    ds = body.defs().get(x.local, [])
+    if len(ds) != len(x.alts) or body.partial.get(x.local):
+        return None
+    good = []
+    for (dbb, si, kind, payload), alt in zip(ds, x.alts):
+        pa = peel(alt, through_try=False)
+        if pa is not None and pa.k == "agg" and pa.variant in ("Ok", "Some") and pa.args:
+            good.append((pa.args[0], dbb))
+        elif pa is not None and ((pa.k == "agg" and pa.variant in ("Err", "None")) or (pa.k == "call" and (pa.q or "").endswith("from_residual"))):
+            continue
+        else:
+            return None
+    if len(good) != 1 or not (good[0][1] == s or s in body.reachable(good[0][1])):
+        return None
+    return good[0]
 
 
 def facts_at(body, bb):
